@@ -33,23 +33,34 @@ type Cross struct {
 	Async     bool  // datagram transports: the handler returns at once; the reply is written later from a goroutine,
 	//                   after AsyncK further requests have been dispatched (or 30 ms)
 	AsyncK int
-	Tsig   bool // server has a TSIG secret, every request and reply is signed; TsigStatus must be nil for every request
-	Salt   uint32
+	// IdleMs > 0 (datagram transports): Server.ReadTimeout in ms; the socket stays silent for IdlePauses
+	// read time-outs after the start, then all clients burst at once (a late wake-up only shortens the silence)
+	IdleMs     int
+	IdlePauses int
+	Tsig       bool // server has a TSIG secret, every request and reply is signed; TsigStatus must be nil for every request
+	Salt       uint32
 }
 
 func genCross(transports []string) func(t *rapid.T) Cross {
 	return func(t *rapid.T) Cross {
 		c := Cross{
-			Transport: rapid.SampledFrom(transports).Draw(t, "transport"),
-			Clients:   rapid.SampledFrom([]int{2, 3, 4, 8, 8, 16, 16, 32, 64}).Draw(t, "clients"),
-			Reqs:      rapid.IntRange(1, 8).Draw(t, "reqs"),
-			SameIDs:   rapid.Bool().Draw(t, "sameIDs"),
-			UDPSize:   rapid.SampledFrom([]int{0, 0, 512, 1232, 4096}).Draw(t, "udpSize"),
-			Pad:       rapid.SampledFrom([]int{0, 0, 50, 200, 300}).Draw(t, "pad"),
-			Tsig:      rapid.IntRange(0, 9).Draw(t, "tsig") < 4,
-			Async:     rapid.IntRange(0, 9).Draw(t, "async") < 4,
-			AsyncK:    rapid.IntRange(0, 4).Draw(t, "asyncK"),
-			Salt:      rapid.Uint32().Draw(t, "salt"),
+			Transport:  rapid.SampledFrom(transports).Draw(t, "transport"),
+			Clients:    rapid.SampledFrom([]int{2, 3, 4, 8, 8, 16, 16, 32, 64}).Draw(t, "clients"),
+			Reqs:       rapid.IntRange(1, 8).Draw(t, "reqs"),
+			SameIDs:    rapid.Bool().Draw(t, "sameIDs"),
+			UDPSize:    rapid.SampledFrom([]int{0, 0, 512, 1232, 4096}).Draw(t, "udpSize"),
+			Pad:        rapid.SampledFrom([]int{0, 0, 50, 200, 300}).Draw(t, "pad"),
+			Tsig:       rapid.IntRange(0, 9).Draw(t, "tsig") < 4,
+			Async:      rapid.IntRange(0, 9).Draw(t, "async") < 4,
+			IdlePauses: rapid.IntRange(2, 4).Draw(t, "idlePauses"),
+			AsyncK:     rapid.IntRange(0, 4).Draw(t, "asyncK"),
+			Salt:       rapid.Uint32().Draw(t, "salt"),
+		}
+		if rapid.IntRange(0, 9).Draw(t, "idle") < 3 {
+			c.IdleMs = rapid.SampledFrom([]int{15, 25, 40}).Draw(t, "idleMs")
+			if c.Pad == 0 {
+				c.Pad = 200 // large requests, so that mixed buffers show
+			}
 		}
 		if !pbt.Thorough() && c.Clients*c.Reqs > 192 {
 			c.Reqs = 192 / c.Clients
@@ -191,6 +202,7 @@ type crossState struct {
 	seen         map[string]int
 	bad          []string
 	multi        bool           // realUDPwild: several local addresses are usable
+	idle         bool           // the round starts with a silence of several read time-outs
 	addrs        map[int]string // client index -> its local address, as the server must see it
 	srvLocal     string         // the address the server listens on
 	asyncPending atomic.Int32   // late repliers still at work (an atomic, not a WaitGroup: Add would race with Wait across a real socket)
@@ -338,6 +350,9 @@ func checkCross(c Cross) error {
 	if c.Tsig && s.tsigOK.Load() > 0 {
 		cl = append(cl, "tsig-verified-requests")
 	}
+	if s.idle {
+		cl = append(cl, "idle-timeouts-then-burst")
+	}
 	if s.lateReplies.Load() > 0 {
 		cl = append(cl, "replies-after-ServeDNS-returned")
 	}
@@ -380,6 +395,10 @@ func bucket(n int) int {
 func (s *crossState) run() (lost int, err error) {
 	c := s.c
 	srv := &dns.Server{Handler: dns.HandlerFunc(s.handler), ReadTimeout: time.Minute, IdleTimeout: func() time.Duration { return time.Minute }, UDPSize: c.UDPSize}
+	if c.IdleMs > 0 && (c.Transport == "memPacket" || c.Transport == "realUDP" || c.Transport == "realUDPwild") {
+		srv.ReadTimeout = time.Duration(c.IdleMs) * time.Millisecond
+		s.idle = true
+	}
 	if c.Tsig {
 		srv.TsigSecret = map[string]string{tsigKeyName: tsigSecret}
 		// TXT + OPT + TSIG are three additional records; the default policy refuses more than two
@@ -527,6 +546,10 @@ func (s *crossState) run() (lost int, err error) {
 				}
 			}
 		}()
+	}
+	if s.idle {
+		// let the read loop run into its idle time-out a few times before anything arrives
+		time.Sleep(time.Duration(c.IdlePauses*c.IdleMs+3) * time.Millisecond)
 	}
 	close(gate)
 	done := make(chan struct{})
